@@ -82,9 +82,11 @@ def families(tier):
                         continue     # the text printed for a null string is a glibc extension; compare only where all of it is printed
                     cases.append(('%' + fl + w + p + 's', b + [('s', s)]))
     cases += [('%%', []), ('a%%b%dc', [('i', 5)]), ('x=%d, y=%s!', [('i', -3), ('s', b'yz')]), ('%2$d %1$d', [('i', 1), ('i', 2)]), ('%1$d %1$d', [('i', 4)]),
-              ('%2$s|%1$5d|', [('i', 42), ('s', b'ab')]), ('%*d', [('i', -6), ('i', 42)]), ('%.*d', [('i', -1), ('i', 42)]), ('%-*d|', [('i', 6), ('i', 42)]),
+              ('%2$s|%1$5d|', [('i', 42), ('s', b'ab')]), ('%2$d %1$d %2$d', [('i', 1), ('i', 2)]), ('%3$d %1$d %3$d %2$d', [('i', 1), ('i', 2), ('i', 3)]), ('%*d', [('i', -6), ('i', 42)]), ('%.*d', [('i', -1), ('i', 42)]), ('%-*d|', [('i', 6), ('i', 42)]),
               ('%p', [('p', 0x1234)]), ('%p', [('p', 0xffffffffffffffff)]), ("%'d", [('i', 1234567)]), ("%'8d", [('i', 12)])]
-    yield ('chars_strings_misc', cases)
+    yield ('chars_strings_misc', [c for c in cases if '$' not in c[0]])
+    # positional arguments go through the union arg_list (byte-level reasoning in CBMC: tens of seconds per directive): one case per run
+    yield ('positional', [c for c in cases if '$' in c[0]])
 
 def expected(fmt, args):
     if fmt.endswith('p') and fmt.startswith('%p'):
@@ -102,8 +104,9 @@ def emit_c(tier, batch_size=12):
     batches = []
     k = 0
     for fam, cases in families(tier):
-        for b in range(0, len(cases), batch_size):
-            chunk = cases[b:b + batch_size]
+        bs = 1 if fam == 'positional' else batch_size
+        for b in range(0, len(cases), bs):
+            chunk = cases[b:b + bs]
             out.append('#if C19_BATCH == %d' % k)
             out.append('static const struct c19_case c19_cases[] = {')
             for fmt, args in chunk:
